@@ -480,7 +480,7 @@ func c17Truncate(c *ev.Ctx, streams [][]c17frame) {
 					// nothing to send: the reader is blocked in the pipe; end it
 					fx.p.C.Close()
 				}
-				out, dump := quiesce.Await(fx.p.HandleDone, 60*time.Second)
+				out, dump := quiesce.Await(fx.p.HandleDone, wd)
 				det := map[string]any{"stream": streamKey(frames), "cut_at": t, "eof_with_last_bytes": with, "stream_bytes": len(all), "complete_frames": complete}
 				c.Case(fmt.Sprintf("trunc:%s:%d:%v", streamKey(frames), t, with), true)
 				if out != quiesce.CondMet {
@@ -701,7 +701,7 @@ func c17Client(c *ev.Ctx) {
 				var gerr error
 				done := make(chan struct{})
 				go func() { got, gerr = do(); close(done) }()
-				out, dump := quiesce.Await(done, 60*time.Second)
+				out, dump := quiesce.Await(done, wd)
 				pn := "generic"
 				if socket {
 					pn = "socket"
